@@ -1,7 +1,8 @@
 /-
-The write attempts of the receive path, exactly, under every schedule of failing writes: a summary
+The write attempts of the receive path, exactly, under every schedule of completing, failing and
+cancelled writes: a summary
 judgement `Acts` (which lines a computation attempts, what is left of the schedule, whether a write
-failed, whether it ends in a missing-node/child error, the reported version and the presentation
+did not complete and with which exception, whether it ends in a missing-node/child error, the reported version and the presentation
 marker afterwards), one lemma per handler, one per decorator.  `Properties/C06.lean` combines
 them over the generated dispatch tables into `writes_eq_expected` / `writes_eq_attempts`.
 -/
@@ -17,39 +18,62 @@ def caughtOut (r : Except Exn Msg) : Bool :=
   | .ok _ => false
   | .error e => missingCaught e
 
-/-- Attempts made, schedule left, whether a write failed. -/
-abbrev Att := List WriteEvt × List Bool × Bool
-
 /-- **Summary of running `x` at `w`** while the message `m` is handled. -/
 structure Acts (m : Msg) (x : M Msg) (w : W) (a : Att) (miss : Bool) (pv' : Option Str) (mk : Bool) : Prop where
   /-- exactly the attempts `a.1` are appended to the write log -/
   writes : (x w).2.writes = w.writes ++ a.1
   faults : (x w).2.faults = a.2.1
-  /-- a failed write ends the computation with the transport error -/
-  failed : a.2.2 = true → (x w).1 = .error (.lib .transportFailed)
+  /-- a write that did not complete ends the computation with its exception (the last such one) -/
+  failed : ∀ e, a.2.2 = some e → (x w).1 = .error e ∧ missingCaught e = false
   ret : ∀ r, (x w).1 = .ok r → r = m
   /-- otherwise: whether it ends in a missing-node / missing-child error -/
-  miss : a.2.2 = false → caughtOut (x w).1 = miss
+  miss : a.2.2 = none → caughtOut (x w).1 = miss
   pv : (x w).2.st.pv = pv'
   mark : (x w).2.st.ibuf.has (markerKey m.node) = mk
 
-theorem attempt_nil (fs : List Bool) : attempt [] fs = ([], fs, false) := by
-  cases fs with
-  | nil => rfl
-  | cons b fs => cases b <;> rfl
+theorem attempt_nil (fs : List Fault) : attempt [] fs = ([], fs, none) := rfl
 
 /-- Without failures every line is written. -/
-theorem attempt_nofault (ls : List Str) : attempt ls [] = (ls.map fun l => ⟨l, true⟩, [], false) := by
+theorem attempt_nofault (ls : List Str) : attempt ls [] = (ls.map fun l => ⟨l, true⟩, [], none) := by
   induction ls with
   | nil => rfl
   | cons l ls ih => simp [attempt, ih]
 
+/-- The exception of an attempt is the transport error or the cancellation. -/
+theorem attempt_exn_cases (ls : List Str) (fs : List Fault) (e : Exn) (h : (attempt ls fs).2.2 = some e) :
+    e = .lib .transportFailed ∨ e = .foreign .CancelledError := by
+  induction ls generalizing fs with
+  | nil => simp [attempt_nil] at h
+  | cons l ls ih =>
+    rcases fs with _ | ⟨_ | _ | _, fs⟩
+    · exact ih [] (by simpa [attempt] using h)
+    · exact ih fs (by simpa [attempt, Fault.exn] using h)
+    · simp [attempt, Fault.exn] at h; exact Or.inl h.symm
+    · simp [attempt, Fault.exn] at h; exact Or.inr h.symm
+
+@[simp] theorem missingCaught_transport : missingCaught (.lib .transportFailed) = false := rfl
+@[simp] theorem missingCaught_foreign (c : PyExn) : missingCaught (.foreign c) = false := rfl
+
+/-- … neither of which the missing-node/child decorator catches. -/
+theorem attempt_exn_not_missing (ls : List Str) (fs : List Fault) (e : Exn) (h : (attempt ls fs).2.2 = some e) :
+    missingCaught e = false := by
+  rcases attempt_exn_cases ls fs e h with rfl | rfl <;> rfl
+
+/-- The outcome of a sequence of writes: the exception of the one that did not complete, if any. -/
+def exnOut (o : Option Exn) : Except Exn Unit :=
+  match o with
+  | some e => .error e
+  | none => .ok ()
+
+@[simp] theorem exnOut_none : exnOut none = .ok () := rfl
+@[simp] theorem exnOut_some (e : Exn) : exnOut (some e) = .error e := rfl
+
 /-- `transport.write` is an attempt of one line. -/
 theorem transportWrite_attempt (line : Str) (w : W) :
     transportWrite line w =
-      ((if (attempt [line] w.faults).2.2 then .error (.lib .transportFailed) else .ok ()),
+      (exnOut (attempt [line] w.faults).2.2,
        { w with faults := (attempt [line] w.faults).2.1, writes := w.writes ++ (attempt [line] w.faults).1 }) := by
-  rcases hfs : w.faults with _ | ⟨_ | _, fs⟩ <;> simp [transportWrite, attempt, hfs]
+  rcases hfs : w.faults with _ | ⟨_ | _ | _, fs⟩ <;> simp [transportWrite, attempt, Fault.exn, hfs]
 
 namespace Acts
 variable {m : Msg} {x : M Msg} {w : W}
@@ -57,8 +81,8 @@ variable {m : Msg} {x : M Msg} {w : W}
 /-- From the result of the run. -/
 theorem of_run {a : Att} {miss : Bool} {pv' : Option Str} {mk : Bool} {p : Except Exn Msg × W} (h : x w = p)
     (h1 : p.2.writes = w.writes ++ a.1) (h2 : p.2.faults = a.2.1)
-    (h3 : a.2.2 = true → p.1 = .error (.lib .transportFailed)) (h4 : ∀ r, p.1 = .ok r → r = m)
-    (h5 : a.2.2 = false → caughtOut p.1 = miss) (h6 : p.2.st.pv = pv') (h7 : p.2.st.ibuf.has (markerKey m.node) = mk) :
+    (h3 : ∀ e, a.2.2 = some e → p.1 = .error e ∧ missingCaught e = false) (h4 : ∀ r, p.1 = .ok r → r = m)
+    (h5 : a.2.2 = none → caughtOut p.1 = miss) (h6 : p.2.st.pv = pv') (h7 : p.2.st.ibuf.has (markerKey m.node) = mk) :
     Acts m x w a miss pv' mk := by
   subst h
   exact ⟨h1, h2, h3, h4, h5, h6, h7⟩
@@ -67,7 +91,7 @@ end Acts
 
 /-- The release loop is an attempt of the parked lines in order. -/
 theorem flushList_attempt (l : List (Key × Msg)) (w : W) (hcmd : ∀ e ∈ l, e.2.cmd = 1) :
-    (flushList l w).1 = (if (attempt (l.map fun e => encode e.2) w.faults).2.2 then .error (.lib .transportFailed) else .ok ()) ∧
+    (flushList l w).1 = exnOut (attempt (l.map fun e => encode e.2) w.faults).2.2 ∧
     (flushList l w).2.writes = w.writes ++ (attempt (l.map fun e => encode e.2) w.faults).1 ∧
     (flushList l w).2.faults = (attempt (l.map fun e => encode e.2) w.faults).2.1 ∧
     (flushList l w).2.st.pv = w.st.pv ∧ (flushList l w).2.st.ibuf = w.st.ibuf := by
@@ -77,7 +101,7 @@ theorem flushList_attempt (l : List (Key × Msg)) (w : W) (hcmd : ∀ e ∈ l, e
     obtain ⟨k, bm⟩ := x
     have hbm : bm.cmd = 1 := hcmd (k, bm) (by simp)
     have hxs : ∀ e ∈ xs, e.2.cmd = 1 := fun e he => hcmd e (by simp [he])
-    rcases hfs : w.faults with _ | ⟨_ | _, fs⟩
+    rcases hfs : w.faults with _ | ⟨_ | _ | _, fs⟩
     · rw [flushList_cons_pass k bm xs w hbm (Or.inl hfs)]
       have := ih ⟨if w.st.sbuf.get? k = some bm then { w.st with sbuf := w.st.sbuf.erase k } else w.st,
         w.faults.tail, w.writes ++ [⟨encode bm, true⟩]⟩ hxs
@@ -90,12 +114,14 @@ theorem flushList_attempt (l : List (Key × Msg)) (w : W) (hcmd : ∀ e ∈ l, e
       have := ih ⟨if w.st.sbuf.get? k = some bm then { w.st with sbuf := w.st.sbuf.erase k } else w.st,
         w.faults.tail, w.writes ++ [⟨encode bm, true⟩]⟩ hxs
       simp only [hfs, List.tail_cons] at this
-      simp only [hfs, List.tail_cons, List.map_cons, attempt]
+      simp only [hfs, List.tail_cons, List.map_cons, attempt, Fault.exn]
       refine ⟨this.1, by simp [this.2.1], this.2.2.1, ?_, ?_⟩
       · rw [this.2.2.2.1]; split <;> rfl
       · rw [this.2.2.2.2]; split <;> rfl
-    · rw [flushList_cons_fail k bm xs w fs hbm hfs]
-      simp [attempt]
+    · rw [flushList_cons_fail k bm xs w .fail _ fs hbm hfs rfl]
+      simp [attempt, Fault.exn]
+    · rw [flushList_cons_fail k bm xs w .cancel _ fs hbm hfs rfl]
+      simp [attempt, Fault.exn]
 
 /-! ### The decorators -/
 
@@ -118,7 +144,7 @@ theorem wrapMissingPV_tail (inner : Msg → M Msg) (m : Msg) (w : W) (hret : ∀
   | ok r' => have := hret r' rfl; subst this; rfl
   | error e => rfl
 
-/-- The version decorator: after the handler — whatever its outcome, also after a failed write —
+/-- The version decorator: after the handler — whatever its outcome, also after a failed or cancelled write —
 the query is attempted iff the version is (still) unknown and the message is not exempt. -/
 theorem acts_wrapMissingPV {inner : Msg → M Msg} {m : Msg} {w : W} {a : Att} {miss : Bool} {pv' : Option Str} {mk : Bool}
     (hi : Acts m (inner m) w a miss pv' mk) :
@@ -131,10 +157,13 @@ theorem acts_wrapMissingPV {inner : Msg → M Msg} {m : Msg} {w : W} {a : Att} {
   by_cases hc : (pv'.isNone && wantsVersionQuery m) = true
   · simp only [hc, if_true] at hrun ⊢
     rw [transportWrite_attempt, h2] at hrun
-    by_cases hb : (attempt [encode versionQuery] a.2.1).2.2 = true
-    · simp only [hb, if_true] at hrun
-      refine Acts.of_run hrun ?_ ?_ ?_ ?_ ?_ ?_ ?_ <;> simp [andThen, hb, h1, h6, h7]
-    · simp only [hb] at hrun
+    cases hb : (attempt [encode versionQuery] a.2.1).2.2 with
+    | some e' =>
+      have hnm := attempt_exn_not_missing _ _ _ hb
+      simp only [hb, exnOut_some] at hrun
+      refine Acts.of_run hrun ?_ ?_ ?_ ?_ ?_ ?_ ?_ <;> simp [andThen, hb, h1, h6, h7, hnm]
+    | none =>
+      simp only [hb, exnOut_none] at hrun
       refine Acts.of_run hrun ?_ ?_ ?_ ?_ ?_ ?_ ?_ <;> simp [andThen, hb, h1, h6, h7]
       · exact h3
       · exact h4
@@ -150,7 +179,7 @@ error (so nothing failed before) and no request is outstanding. -/
 theorem acts_wrapMissingNC {inner : Msg → M Msg} {m : Msg} {w : W} {a : Att} {miss : Bool} {pv' : Option Str} {mk : Bool}
     (hi : Acts m (inner m) w a miss pv' mk) :
     Acts m (wrapMissingNC inner m) w
-      (andThen a fun fs => if a.2.2 then ([], fs, false)
+      (andThen a fun fs => if a.2.2.isSome then ([], fs, none)
         else attempt (if miss && !mk then [encode (presentationRequest m.node)] else []) fs)
       miss pv' ((wrapMissingNC inner m w).2.st.ibuf.has (markerKey m.node)) := by
   obtain ⟨h1, h2, h3, h4, h5, h6, h7⟩ := hi
@@ -159,20 +188,22 @@ theorem acts_wrapMissingNC {inner : Msg → M Msg} {m : Msg} {w : W} {a : Att} {
     rw [hiw] at h1 h2 h3 h4 h5 h6 h7
     simp only at h1 h2 h3 h4 h5 h6 h7
     have same : wrapMissingNC inner m w = (r, w') →
-        Acts m (wrapMissingNC inner m) w (andThen a fun fs => ([], fs, false)) miss pv'
+        Acts m (wrapMissingNC inner m) w (andThen a fun fs => ([], fs, none)) miss pv'
           ((wrapMissingNC inner m w).2.st.ibuf.has (markerKey m.node)) := by
       intro he
       refine ⟨?_, ?_, ?_, ?_, ?_, ?_, ?_⟩ <;> simp [andThen, he, h1, h2, h6]
       · exact h3
       · exact h4
       · exact h5
-    by_cases hb : a.2.2 = true
-    · simp only [hb, if_true]
-      rw [h3 hb] at hiw
-      exact same (by rw [h3 hb]; exact wrapMissingNC_other inner m _ w w' hiw (by simp [missingCaught]))
-    · have hb' : a.2.2 = false := by simpa using hb
-      simp only [hb', Bool.false_eq_true, if_false]
-      have hmiss := h5 hb'
+    cases hb : a.2.2 with
+    | some ex =>
+      simp only [Option.isSome_some, if_true]
+      obtain ⟨hout, hnm⟩ := h3 ex hb
+      rw [hout] at hiw
+      exact same (by rw [hout]; exact wrapMissingNC_other inner m _ w w' hiw hnm)
+    | none =>
+      simp only [Option.isSome_none, Bool.false_eq_true, if_false]
+      have hmiss := h5 hb
       cases r with
       | ok r' =>
         simp only [caughtOut] at hmiss
@@ -196,11 +227,14 @@ theorem acts_wrapMissingNC {inner : Msg → M Msg} {m : Msg} {w : W} {a : Att} {
             have hu := wrapMissingNC_unmarked inner m e w w' hiw hmc (by rw [← markerKey_eq, h7, hmk])
             rw [transportWrite_attempt, h2] at hu
             simp only [Bool.not_false, Bool.and_self, if_true]
-            by_cases hf : (attempt [encode (presentationRequest m.node)] a.2.1).2.2 = true
-            · simp only [hf, if_true] at hu
-              refine ⟨?_, ?_, ?_, ?_, ?_, ?_, ?_⟩ <;> simp [andThen, hu, hf, h1, h6]
-            · simp only [hf] at hu
-              refine ⟨?_, ?_, ?_, ?_, ?_, ?_, ?_⟩ <;> simp [andThen, hu, hf, h1, h6, hb', caughtOut, hmc]
+            cases hf : (attempt [encode (presentationRequest m.node)] a.2.1).2.2 with
+            | some e' =>
+              have hnm := attempt_exn_not_missing _ _ _ hf
+              simp only [hf, exnOut_some] at hu
+              refine ⟨?_, ?_, ?_, ?_, ?_, ?_, ?_⟩ <;> simp [andThen, hu, hf, h1, h6, hnm]
+            | none =>
+              simp only [hf, exnOut_none] at hu
+              refine ⟨?_, ?_, ?_, ?_, ?_, ?_, ?_⟩ <;> simp [andThen, hu, hf, h1, h6, hb, caughtOut, hmc]
 
 /-- A state change before the handler (`protocol_20.handle_presentation` dropping the marker). -/
 theorem acts_seq_modify {m : Msg} {x : M Msg} {w : W} {a : Att} {miss : Bool} {pv' : Option Str} {mk : Bool} (f : St → St)
@@ -244,9 +278,9 @@ theorem acts_hSet (m : Msg) (w : W) :
       | true =>
         have hs := gwSend_direct ⟨m.node, Gen.systemChildId, Gen.cmdInternal, 0, Gen.iReboot, []⟩ Gen.bufReboot
           (Or.inr (Or.inr (Or.inl rfl)))
-        rcases hfs : w.faults with _ | ⟨_ | _, fs⟩ <;>
+        rcases hfs : w.faults with _ | ⟨_ | _ | _, fs⟩ <;>
           acts_run [hSet, requireNode, M.bind, M.getSt, hn, M.pure, hc, M.seq, setNode, M.modifySt, hr, hs,
-            transportWrite, hfs, attempt, knownChild, PDict.has]
+            transportWrite, hfs, attempt, Fault.exn, knownChild, PDict.has]
 
 /-- A req: the stored value, if any. -/
 theorem acts_hReq (m : Msg) (w : W) :
@@ -268,8 +302,8 @@ theorem acts_hReq (m : Msg) (w : W) :
         have hs := gwSend_set ⟨m.node, m.child, Gen.cmdSet, 0, m.type, value⟩ Gen.bufReqReply w rfl
         rw [hflag] at hs
         simp only [Bool.false_eq_true, false_and, if_false] at hs
-        rcases hfs : w.faults with _ | ⟨_ | _, fs⟩ <;>
-          acts_run [hReq, requireNode, M.bind, M.getSt, hn, M.pure, hc, hv, M.seq, hflag, hs, transportWrite, hfs, attempt,
+        rcases hfs : w.faults with _ | ⟨_ | _ | _, fs⟩ <;>
+          acts_run [hReq, requireNode, M.bind, M.getSt, hn, M.pure, hc, hv, M.seq, hflag, hs, transportWrite, hfs, attempt, Fault.exn,
             storedValue?, knownChild, PDict.has]
 
 
@@ -277,8 +311,8 @@ theorem acts_hReq (m : Msg) (w : W) :
 theorem acts_reply (m : Msg) (w : W) (r : Msg) (b : Bool) (h : r.cmd = 3) :
     Acts m (seq (gwSend r b) (pure m)) w (attempt [encode r] w.faults) false w.st.pv (w.st.ibuf.has (markerKey m.node)) := by
   have hs := gwSend_direct r b (Or.inr (Or.inr (Or.inl h)))
-  rcases hfs : w.faults with _ | ⟨_ | _, fs⟩ <;>
-    acts_run [M.seq, M.bind, M.pure, hs, transportWrite, hfs, attempt]
+  rcases hfs : w.faults with _ | ⟨_ | _ | _, fs⟩ <;>
+    acts_run [M.seq, M.bind, M.pure, hs, transportWrite, hfs, attempt, Fault.exn]
 
 theorem acts_hConfig (env : Env) (m : Msg) (w : W) (hcmd : m.cmd = 3) :
     Acts m (hConfig env m) w
@@ -308,12 +342,12 @@ theorem acts_hIdRequest (m : Msg) (w : W) (hcmd : m.cmd = 3) :
   · have : nextId w.st.nodes ≤ Gen.maxNodeId := by omega
     have hs := gwSend_direct ⟨m.node, m.child, m.cmd, 0, Gen.iIdResponse, dec (nextId w.st.nodes)⟩ Gen.bufIdResponse
       (Or.inr (Or.inr (Or.inl hcmd)))
-    rcases hfs : w.faults with _ | ⟨_ | _, fs⟩ <;>
-      acts_run [hIdRequest, M.bind, M.getSt, hfull, this, M.seq, allocNode, M.modifySt, M.pure, hs, transportWrite, hfs, attempt]
+    rcases hfs : w.faults with _ | ⟨_ | _ | _, fs⟩ <;>
+      acts_run [hIdRequest, M.bind, M.getSt, hfull, this, M.seq, allocNode, M.modifySt, M.pure, hs, transportWrite, hfs, attempt, Fault.exn]
 
 /-- Reports that need the sender's record: nothing is written; an unknown sender is a missing-node error. -/
 theorem acts_hBattery (m : Msg) (w : W) :
-    Acts m (hBattery m) w ([], w.faults, false) (!knownNode w.st m) w.st.pv (w.st.ibuf.has (markerKey m.node)) := by
+    Acts m (hBattery m) w ([], w.faults, none) (!knownNode w.st m) w.st.pv (w.st.ibuf.has (markerKey m.node)) := by
   cases hn : w.st.nodes.get? m.node with
   | none => acts_run [hBattery, requireNode, M.bind, M.getSt, hn, M.raise, knownNode, PDict.has]
   | some node =>
@@ -327,22 +361,22 @@ theorem acts_hBattery (m : Msg) (w : W) :
           knownNode, PDict.has]
 
 theorem acts_hSketchName (m : Msg) (w : W) :
-    Acts m (hSketchName m) w ([], w.faults, false) (!knownNode w.st m) w.st.pv (w.st.ibuf.has (markerKey m.node)) := by
+    Acts m (hSketchName m) w ([], w.faults, none) (!knownNode w.st m) w.st.pv (w.st.ibuf.has (markerKey m.node)) := by
   cases hn : w.st.nodes.get? m.node <;>
     acts_run [hSketchName, requireNode, M.bind, M.getSt, hn, M.raise, M.pure, M.seq, setNode, M.modifySt, knownNode, PDict.has]
 
 theorem acts_hSketchVersion (m : Msg) (w : W) :
-    Acts m (hSketchVersion m) w ([], w.faults, false) (!knownNode w.st m) w.st.pv (w.st.ibuf.has (markerKey m.node)) := by
+    Acts m (hSketchVersion m) w ([], w.faults, none) (!knownNode w.st m) w.st.pv (w.st.ibuf.has (markerKey m.node)) := by
   cases hn : w.st.nodes.get? m.node <;>
     acts_run [hSketchVersion, requireNode, M.bind, M.getSt, hn, M.raise, M.pure, M.seq, setNode, M.modifySt, knownNode, PDict.has]
 
 theorem acts_hDiscoverResponse (m : Msg) (w : W) :
-    Acts m (hDiscoverResponse m) w ([], w.faults, false) (!knownNode w.st m) w.st.pv (w.st.ibuf.has (markerKey m.node)) := by
+    Acts m (hDiscoverResponse m) w ([], w.faults, none) (!knownNode w.st m) w.st.pv (w.st.ibuf.has (markerKey m.node)) := by
   cases hn : w.st.nodes.get? m.node <;>
     acts_run [hDiscoverResponse, requireNode, M.bind, M.getSt, hn, M.raise, M.pure, knownNode, PDict.has]
 
 theorem acts_hHeartbeat22 (m : Msg) (w : W) :
-    Acts m (hHeartbeat22 m) w ([], w.faults, false) (!knownNode w.st m) w.st.pv (w.st.ibuf.has (markerKey m.node)) := by
+    Acts m (hHeartbeat22 m) w ([], w.faults, none) (!knownNode w.st m) w.st.pv (w.st.ibuf.has (markerKey m.node)) := by
   cases hn : w.st.nodes.get? m.node with
   | none => acts_run [hHeartbeat22, requireNode, M.bind, M.getSt, hn, M.raise, knownNode, PDict.has]
   | some node =>
@@ -356,7 +390,7 @@ theorem acts_hHeartbeat22 (m : Msg) (w : W) :
 
 /-- The version handler: nothing is written; an accepted version string becomes the reported version. -/
 theorem acts_hVersion (m : Msg) (w : W) :
-    Acts m (hVersion m) w ([], w.faults, false) false
+    Acts m (hVersion m) w ([], w.faults, none) false
       (if (getProtocol? m.payload).isSome then some m.payload else w.st.pv) (w.st.ibuf.has (markerKey m.node)) := by
   cases hv : verParse? m.payload with
   | none =>
@@ -396,15 +430,21 @@ theorem acts_flush (m : Msg) (w : W) (hs : ParkedSets w.st m.node) :
     cases r with
     | ok u =>
       simp only at hrun
-      refine Acts.of_run hrun ?_ ?_ ?_ ?_ ?_ ?_ ?_ <;> simp [f2, f3, f4, f5]
-      · cases hb : (attempt (List.map (fun e => encode e.snd) (snapshotOf w.st m.node)) w.faults).2.2 with
-        | false => rfl
-        | true => rw [hb] at f1; simp at f1
+      have hb : (attempt (List.map (fun e => encode e.snd) (snapshotOf w.st m.node)) w.faults).2.2 = none := by
+        cases hb : (attempt (List.map (fun e => encode e.snd) (snapshotOf w.st m.node)) w.faults).2.2 with
+        | none => rfl
+        | some e' => rw [hb] at f1; simp at f1
+      refine Acts.of_run hrun ?_ ?_ ?_ ?_ ?_ ?_ ?_ <;> simp [f2, f3, f4, f5, hb]
     | error e =>
       simp only at hrun
-      refine Acts.of_run hrun ?_ ?_ ?_ ?_ ?_ ?_ ?_ <;> simp [f2, f3, f4, f5]
-      · intro hb; rw [hb] at f1; simpa using f1
-      · intro hb; rw [hb] at f1; simp at f1
+      cases hb : (attempt (List.map (fun e => encode e.snd) (snapshotOf w.st m.node)) w.faults).2.2 with
+      | none => rw [hb] at f1; simp at f1
+      | some e' =>
+        rw [hb] at f1
+        simp only [exnOut_some, Except.error.injEq] at f1
+        subst f1
+        have hnm := attempt_exn_not_missing _ _ _ hb
+        refine Acts.of_run hrun ?_ ?_ ?_ ?_ ?_ ?_ ?_ <;> simp [f2, f3, f4, f5, hb, hnm]
 
 theorem Acts.cast {m : Msg} {x : M Msg} {w : W} {a a' : Att} {miss miss' : Bool} {pv' pv'' : Option Str} {mk mk' : Bool}
     (h : Acts m x w a miss pv' mk) (ha : a = a') (hm : miss = miss') (hp : pv' = pv'') (hk : mk = mk') :
@@ -449,7 +489,7 @@ theorem acts_hPreSleep22 (m : Msg) (w : W) (hs : ParkedSets w.st m.node) :
 /-- `protocol_14.handle_presentation`: nothing is written; a child presentation from an unknown node
 is a missing-node error; the gateway's own presentation reports its version. -/
 theorem acts_hPresentation (env : Env) (v : Ver) (m : Msg) (w : W) :
-    Acts m (hPresentation env v m) w ([], w.faults, false) (m.child != Gen.systemChildId && !knownNode w.st m)
+    Acts m (hPresentation env v m) w ([], w.faults, none) (m.child != Gen.systemChildId && !knownNode w.st m)
       (if m.child = Gen.systemChildId ∧ m.node = 0 ∧ (getProtocol? m.payload).isSome = true then some m.payload else w.st.pv)
       (w.st.ibuf.has (markerKey m.node)) := by
   have hvc : runTyped env (Gen.versionHandlerChain v) = hVersion := by cases v <;> rfl
@@ -464,18 +504,19 @@ theorem acts_hPresentation (env : Env) (v : Ver) (m : Msg) (w : W) :
       acts_run [hPresentation, hc, requireNode, M.bind, M.getSt, hn, M.raise, M.pure, M.seq, setNode, M.modifySt, knownNode, PDict.has]
 
 /-- Writing two lists one after the other = writing the first, and the second if nothing failed. -/
-theorem attempt_append (l x : List Str) (fs : List Bool) :
+theorem attempt_append (l x : List Str) (fs : List Fault) :
     attempt (l ++ x) fs =
-      andThen (attempt l fs) fun fs' => if (attempt l fs).2.2 then ([], fs', false) else attempt x fs' := by
+      andThen (attempt l fs) fun fs' => if (attempt l fs).2.2.isSome then ([], fs', none) else attempt x fs' := by
   induction l generalizing fs with
   | nil => simp [attempt_nil, andThen]
   | cons a l ih =>
-    rcases fs with _ | ⟨_ | _, fs⟩
+    rcases fs with _ | ⟨_ | _ | _, fs⟩
     · simp only [List.cons_append, attempt, ih, andThen]
       rfl
-    · simp only [List.cons_append, attempt, ih, andThen]
+    · simp only [List.cons_append, attempt, Fault.exn, ih, andThen]
       rfl
-    · simp [attempt, andThen]
+    · simp [attempt, Fault.exn, andThen]
+    · simp [attempt, Fault.exn, andThen]
 
 /-- The missing-node/child decorator around a handler whose attempts are a list of lines: the
 request comes after them. -/
@@ -558,7 +599,7 @@ theorem stream_chain_none (v : Ver) (t : Int) : ((Gen.streamChains v).lookup t).
 
 /-- A stream message: nothing is written; an unknown sender is a missing-node error. -/
 theorem acts_hStream (env : Env) (v : Ver) (m : Msg) (w : W) :
-    Acts m (hStream env v m) w ([], w.faults, false) (!knownNode w.st m) w.st.pv (w.st.ibuf.has (markerKey m.node)) := by
+    Acts m (hStream env v m) w ([], w.faults, none) (!knownNode w.st m) w.st.pv (w.st.ibuf.has (markerKey m.node)) := by
   cases hn : w.st.nodes.get? m.node with
   | none => acts_run [hStream, requireNode, M.bind, M.getSt, hn, M.raise, knownNode, PDict.has]
   | some node =>
@@ -706,14 +747,14 @@ theorem query_eq (st : St) (m : Msg) :
     simp [query, pvAfter, hr, hp, he, hw, versionQuery, Gen.systemChildId]
 
 theorem andThen_last_nil (a : Att) :
-    (andThen a fun fs => if a.2.2 then ([], fs, false) else attempt [] fs) = a := by
+    (andThen a fun fs => if a.2.2.isSome then ([], fs, none) else attempt [] fs) = a := by
   simp [andThen, attempt_nil]
 
 /-- The missing-node/child decorator at the command level (around the version decorator). -/
 theorem acts_wrapNC_outer {inner : Msg → M Msg} {m : Msg} {w : W} {a : Att} {miss : Bool} {pv' : Option Str} {mk : Bool}
     (v : Ver) (hi : Acts m (inner m) w a miss pv' mk) :
     ∃ mk', Acts m (wrapNC v inner m) w
-      (andThen a fun fs => if a.2.2 then ([], fs, false) else
+      (andThen a fun fs => if a.2.2.isSome then ([], fs, none) else
         attempt (if Ver.v20 ≤ v ∧ miss = true ∧ mk = false then [encode (presentationRequest m.node)] else []) fs)
       miss pv' mk' := by
   by_cases hv : Ver.v20 ≤ v
@@ -738,5 +779,119 @@ theorem acts_command {env : Env} {m : Msg} {w : W} {inner : Msg → M Msg} {miss
   split
   · rfl
   · congr 1; split <;> rfl
+
+/-! ### How the attempts consume the schedule, and which exception the step ends in -/
+
+theorem lastExn_append (l1 l2 : List Fault) : lastExn (l1 ++ l2) = (lastExn l2).or (lastExn l1) := by
+  induction l1 with
+  | nil => simp [lastExn]
+  | cons f l1 ih => simp [lastExn, ih, Option.or_assoc]
+
+/-- No write of the prefix fails to complete iff all its entries are `pass`. -/
+theorem lastExn_none_iff (fs : List Fault) : lastExn fs = none ↔ ∀ f ∈ fs, f = .pass := by
+  induction fs with
+  | nil => simp [lastExn]
+  | cons f fs ih =>
+    simp only [lastExn, Option.or_eq_none_iff, ih, List.mem_cons, forall_eq_or_imp]
+    constructor
+    · rintro ⟨h1, h2⟩; exact ⟨by cases f <;> simp [Fault.exn] at h2 ⊢, h1⟩
+    · rintro ⟨h1, h2⟩; exact ⟨h2, by subst h1; rfl⟩
+
+/-- **The exception of a schedule prefix is that of its last entry that is not `pass`.** -/
+theorem lastExn_eq_some_iff (fs : List Fault) (e : Exn) :
+    lastExn fs = some e ↔ ∃ pre f post, fs = pre ++ f :: post ∧ f.exn = some e ∧ ∀ g ∈ post, g = .pass := by
+  induction fs with
+  | nil => simp [lastExn]
+  | cons f fs ih =>
+    simp only [lastExn]
+    constructor
+    · intro h
+      cases hl : lastExn fs with
+      | some e' =>
+        rw [hl] at h; simp at h; subst h
+        obtain ⟨pre, g, post, h1, h2, h3⟩ := ih.mp hl
+        exact ⟨f :: pre, g, post, by simp [h1], h2, h3⟩
+      | none =>
+        rw [hl] at h
+        exact ⟨[], f, fs, rfl, by simpa using h, (lastExn_none_iff fs).mp hl⟩
+    · rintro ⟨pre, g, post, h1, h2, h3⟩
+      cases pre with
+      | nil =>
+        simp only [List.nil_append, List.cons.injEq] at h1
+        obtain ⟨rfl, rfl⟩ := h1
+        simp [(lastExn_none_iff _).mpr h3, h2]
+      | cons p pre =>
+        simp only [List.cons_append, List.cons.injEq] at h1
+        obtain ⟨rfl, rfl⟩ := h1
+        simp [ih.mpr ⟨pre, g, post, rfl, h2, h3⟩]
+
+theorem lastExn_cases (fs : List Fault) (e : Exn) (h : lastExn fs = some e) :
+    e = .lib .transportFailed ∨ e = .foreign .CancelledError := by
+  obtain ⟨_, f, _, _, hf, _⟩ := (lastExn_eq_some_iff fs e).mp h
+  cases f <;> simp [Fault.exn] at hf
+  · exact Or.inl hf.symm
+  · exact Or.inr hf.symm
+
+/-- **How an attempt consumes the schedule**: one entry per attempted line (a schedule that ran
+out counts as `pass`), the attempt completes iff its entry is `pass`, and the exception is that
+of the last consumed entry that is not `pass`. -/
+structure Consumes (fs : List Fault) (a : Att) : Prop where
+  left : a.2.1 = fs.drop a.1.length
+  ok : ∀ k (h : k < a.1.length), a.1[k].ok = ((fs[k]?).getD .pass).ok
+  exn : a.2.2 = lastExn (fs.take a.1.length)
+
+theorem consumes_stop (fs : List Fault) : Consumes fs ([], fs, none) :=
+  ⟨by simp, by simp, by simp [lastExn]⟩
+
+theorem consumes_attempt (ls : List Str) (fs : List Fault) : Consumes fs (attempt ls fs) := by
+  induction ls generalizing fs with
+  | nil => exact consumes_stop fs
+  | cons l ls ih =>
+    rcases fs with _ | ⟨_ | _ | _, fs⟩
+    · obtain ⟨h1, h2, h3⟩ := ih []
+      refine ⟨by simpa [attempt] using h1, ?_, by simpa [attempt, lastExn] using h3⟩
+      intro k hk
+      cases k with
+      | zero => simp [attempt, Fault.ok, Fault.exn]
+      | succ k => simpa [attempt] using h2 k (by simpa [attempt] using hk)
+    · obtain ⟨h1, h2, h3⟩ := ih fs
+      refine ⟨by simpa [attempt, Fault.exn] using h1, ?_, by simpa [attempt, Fault.exn, lastExn] using h3⟩
+      intro k hk
+      cases k with
+      | zero => simp [attempt, Fault.ok, Fault.exn]
+      | succ k => simpa [attempt, Fault.exn] using h2 k (by simpa [attempt, Fault.exn] using hk)
+    · refine ⟨by simp [attempt, Fault.exn], ?_, by simp [attempt, Fault.exn, lastExn]⟩
+      intro k hk
+      have : k = 0 := by simpa [attempt, Fault.exn] using hk
+      subst this; simp [attempt, Fault.ok, Fault.exn]
+    · refine ⟨by simp [attempt, Fault.exn], ?_, by simp [attempt, Fault.exn, lastExn]⟩
+      intro k hk
+      have : k = 0 := by simpa [attempt, Fault.exn] using hk
+      subst this; simp [attempt, Fault.ok, Fault.exn]
+
+theorem consumes_andThen {fs : List Fault} {a : Att} {next : List Fault → Att} (ha : Consumes fs a)
+    (hn : ∀ fs', Consumes fs' (next fs')) : Consumes fs (andThen a next) := by
+  obtain ⟨a1, a2, a3⟩ := ha
+  obtain ⟨b1, b2, b3⟩ := hn a.2.1
+  refine ⟨?_, ?_, ?_⟩
+  · simp only [andThen, List.length_append]
+    rw [b1, a1, List.drop_drop]
+  · intro k hk
+    simp only [andThen, List.length_append] at hk
+    simp only [andThen]
+    by_cases hka : k < a.1.length
+    · rw [List.getElem_append_left hka]; exact a2 k hka
+    · have hka' : a.1.length ≤ k := by omega
+      rw [List.getElem_append_right hka', b2 _ (by omega), a1, List.getElem?_drop]
+      congr 3; omega
+  · simp only [andThen, List.length_append]
+    rw [b3, a3, a1, List.take_add, lastExn_append]
+
+theorem consumes_attempts (env : Env) (st : St) (m : Msg) (fs : List Fault) : Consumes fs (attempts env st m fs) := by
+  unfold attempts
+  refine consumes_andThen (consumes_andThen (consumes_attempt _ _) fun _ => consumes_attempt _ _) fun fs' => ?_
+  split
+  · exact consumes_stop _
+  · exact consumes_attempt _ _
 
 end AioMySensors
